@@ -65,6 +65,16 @@ struct OneShot {
                 int ht = (int) ((uint64_t) plan.at("huff").geti("t") % 3);
                 if (ht != IGZIP_HUFFTABLE_CUSTOM)
                         isal_deflate_set_hufftables(st, nullptr, ht);
+                else {
+                        bool faulted = false;
+                        Slot *sh = make_custom_hufftables(plan.at("huff"), data, fill, gc, rr, h, faulted);
+                        if (faulted)
+                                return;
+                        if (sh)
+                                isal_deflate_set_hufftables(st, (struct isal_hufftables *) sh->data, IGZIP_HUFFTABLE_CUSTOM);
+                        else
+                                ht = IGZIP_HUFFTABLE_DEFAULT;
+                }
                 h.rec("open1", { level, wrap, hb, (int64_t) st->level_buf_size, ht, (int64_t) data.size(), chained, inv_kind });
                 h.sigmix(level * 131 + wrap * 17 + hb + ht * 7 + (chained ? 1000 : 0) + inv_kind * 10000);
 
@@ -278,7 +288,7 @@ static Json gen_oneshot(Rng &r0, const std::string &focus, int tier)
         lb.push((int) (r.chance(1, 2) ? 0 : r.below(5))).push(r.chance(1, 2) ? 0 : (int) r.below(300)).push((int) r.below(4));
         p.set("lb", lb);
         Json hf = Json::obj();
-        hf.set("t", 1 + (int) r.below(2));
+        hf.set("t", r.chance(1, 4) ? 0 : 1 + (int) r.below(2)).set("k", (int) r.below(DK_NKINDS)).set("n", (int) r.below(20000)).set("s", r.u64() >> 20).set("subset", (int) r.chance(1, 3));
         p.set("huff", hf);
         Json ch = Json::arr();
         if (chain) {
